@@ -454,6 +454,16 @@ func bClose(variant int) func() {
 				c2.commit()
 				c2.get(0, nil)
 			}()
+		case 3: // consumer.Close racing Diff / Buffer.Range on the same consumer from other goroutines
+			wg.Add(3)
+			go func() { defer wg.Done(); c1.close() }()
+			go func() { defer wg.Done(); h.diff(c1); h.diff(c1) }()
+			go func() {
+				defer wg.Done()
+				h.diff(c2)
+				c2.get(0, nil)
+				h.diff(c2)
+			}()
 		}
 		wg.Wait()
 		h.finish(c1, c2)
@@ -541,6 +551,7 @@ func init() {
 	reg("B-close-0", "C12", 2, 3, "Buffer.Close racing Put, NewConsumer, Get+Commit", bClose(0), defaultPolicy)
 	reg("B-close-1", "C12", 2, 3, "consumer.Close with an uncommitted read (rolled back by another thread) racing Buffer.Close and a second Close", bClose(1), defaultPolicy)
 	reg("B-close-2", "C12", 2, 3, "consumer.Close racing its own Get/Commit; other consumer unaffected", bClose(2), defaultPolicy)
+	reg("B-close-3", "C12", 2, 3, "consumer.Close racing Diff on the same consumer; Diff and Get on another", bClose(3), defaultPolicy)
 	for _, v := range []struct {
 		name   string
 		n      int
@@ -695,4 +706,42 @@ func init() {
 	vrt.Register(&vrt.Scenario{Name: "B-evict-commit", Props: []string{"C01", "C03", "C11:race", "C12:goroutine-leak,close-"}, Quick: 2, Thorough: 3,
 		Desc: "FixedBufferCleaner(2,1): a lagging consumer commits reads that a forced trim has passed, then reads on",
 		Opts: vrt.Options{Delay: true}, Run: bEvictCommit, Check: bufferCheck(fixedPolicy(2, 1))})
+}
+
+// B-wake-after-commit: a Get blocks at the end of a buffer that still physically holds an
+// already committed value; the cleaner may shift that value out while the Get is blocked; then
+// one value is put: the Get must return it.
+func bWakeAfterCommit(cooldown time.Duration) func() {
+	return func() {
+		h := newBufH(cooldown, nil)
+		c := h.newC()
+		h.put(0, nil, 1)
+		c.get(0, nil)
+		c.commit()
+		var wg sync.WaitGroup
+		wg.Add(2)
+		go func() {
+			defer wg.Done()
+			if _, ok := c.get(0, nil); ok {
+				c.commit()
+			}
+		}()
+		go func() {
+			defer wg.Done()
+			h.put(0, nil, 2)
+		}()
+		wg.Wait()
+		h.finish(c)
+	}
+}
+
+func init() {
+	for _, v := range []struct {
+		name string
+		cd   time.Duration
+	}{{"B-wake-after-commit", 0}, {"B-wake-after-commit-cd", 10 * time.Millisecond}} {
+		vrt.Register(&vrt.Scenario{Name: v.name, Props: []string{"C05", "C11:race", "C12:goroutine-leak,close-"}, Quick: 2, Thorough: 3,
+			Desc: "Get blocked behind an already committed value that the cleaner may evict meanwhile, then one Put",
+			Opts: vrt.Options{Delay: true}, Run: bWakeAfterCommit(v.cd), Check: bufferCheckSig(defaultPolicy, "lost-wakeup")})
+	}
 }
